@@ -515,7 +515,7 @@ def exec_arm(j, vec):
         hooks[j.slots[name]] = hook
     init = {r: 0xA5A50000 + r * 0x101 for r in range(0, 13)}
     try:
-        res = arm32.run(bytes(code.data), code.address, sym_addr(j.linked, j.fname), [wrap(t, a) for t, a in zip(j.params, vec)], max_steps=400000,
+        res = arm32.run(bytes(code.data), code.address, sym_addr(j.linked, j.fname), [wrap(t, a) for t, a in zip(j.params, vec)], max_steps=100000,
                         mem_size=RV_MEM, arg_regs=ARM_ARGREGS, extra_images=images, hooks=hooks, init_regs=init, thumb=thumb)
     except arm32.IllegalInstruction as e:
         return ("illegal", "%#x" % e.word, e.why)
